@@ -23,6 +23,7 @@ func init() { register(&Scenario{ID: "C10", Run: runC10}) }
 type txCall struct {
 	kind       string
 	marker     string
+	pad        string
 	inv, ret   int // scheduler step at invocation / return
 	err        error
 	done       bool
@@ -161,7 +162,12 @@ func runC10(rc *RC) {
 		var delays []time.Duration
 		for k := 0; k < n; k++ {
 			mk++
-			plan = append(plan, &txCall{kind: txKinds[ch.Int("workload", len(txKinds))], marker: fmt.Sprintf("mk%dx", mk)})
+			c := &txCall{kind: txKinds[ch.Int("workload", len(txKinds))], marker: fmt.Sprintf("mk%dx", mk)}
+			if ch.Chance("workload", 1, 4) {
+				// an element that takes several writes on the connection: a close must not land in the middle of it
+				c.pad = strings.Repeat("p", ch.Range("workload", 4000, 13000))
+			}
+			plan = append(plan, c)
 			delays = append(delays, time.Duration(ch.Range("workload", 0, 20))*25*time.Millisecond)
 		}
 		rc.Spawn(fmt.Sprintf("sender%d", i), func() {
@@ -170,7 +176,7 @@ func runC10(rc *RC) {
 				ctx, cancel := context.WithTimeout(e.Ctx, 5*time.Second)
 				c.inv = rc.S.Steps
 				calls = append(calls, c)
-				c.err = doTx(ctx, e.Sess, c.kind, c.marker)
+				c.err = doTx(ctx, e.Sess, c.kind, c.pad+c.marker)
 				c.ret, c.done = rc.S.Steps, true
 				cancel()
 			}
